@@ -555,6 +555,24 @@ theorem step_inv1 (s : State) (o : Op) (hi : Inv1 s) : Inv1 (step s o) := by
     · rw [hs.commits]; exact hi.commitsNd
     · rw [hs.commits, hs.rpcs]; exact hi.commitsOk
   | deliver => exact deliver_inv1 s hi
+  | regen =>
+    simp only [step]
+    obtain ⟨b0, b1, b2, b3⟩ := prune_frame s hi.nd
+    generalize prune s = s2 at b0 b1 b2 b3
+    constructor
+    · exact b0
+    · intro c
+      simp only [curList, inflightCount, b3.cur, b3.rpcs]
+      rw [b2 c]; exact hi.eq c
+    · simp only [curList, b3.cur]; exact hi.curNd
+    · intro c hne
+      simp only at hne ⊢
+      by_cases h : c ∈ names s2.active
+      · exact h
+      · exact absurd (rc_of_not_mem _ _ h) hne
+    · simp only; rw [b3.rpcs]; exact hi.idsNd
+    · simp only; rw [b3.commits]; exact hi.commitsNd
+    · simp only; rw [b3.commits, b3.rpcs]; exact hi.commitsOk
   | select id c =>
     simp only [step]
     split
